@@ -354,6 +354,7 @@ func c05Verdict(w *iso.Worker, c c05Case) (c05Result, error) {
 func c05Schemas() []ref.Schema {
 	long := ref.Prim("long")
 	str := ref.Prim("string")
+	dbl, flt, boolS := ref.Prim("double"), ref.Prim("float"), ref.Prim("boolean")
 	out := []ref.Schema{
 		ref.Prim("null"), ref.Prim("boolean"), ref.Prim("int"), ref.Prim("long"), ref.Prim("float"), ref.Prim("double"), ref.Prim("bytes"), ref.Prim("string"),
 		{Kind: "record", Name: "Inner", Fields: []ref.Field{{Name: "A", Type: long}}},
@@ -366,6 +367,14 @@ func c05Schemas() []ref.Schema {
 		ref.Nullable(long),
 		ref.Nullable(str),
 		{Kind: "union", Branches: []ref.Schema{long, ref.Prim("null")}},
+		// unions of more than two branches: some fit a given Go type, others do not
+		{Kind: "union", Branches: []ref.Schema{ref.Prim("null"), ref.Prim("boolean"), long}},
+		{Kind: "union", Branches: []ref.Schema{ref.Prim("null"), ref.Prim("int"), str}},
+		{Kind: "union", Branches: []ref.Schema{long, str}},
+		{Kind: "union", Branches: []ref.Schema{ref.Prim("null"), ref.Prim("int"), long}},
+		{Kind: "union", Branches: []ref.Schema{ref.Prim("float"), ref.Prim("double")}},
+		// arrays and maps of the fixed-width primitives
+		{Kind: "array", Items: &dbl}, {Kind: "array", Items: &flt}, {Kind: "array", Items: &boolS}, {Kind: "map", Values: &dbl},
 	}
 	for _, n := range []int{0, 1, 3, 4, 8, 16, 40} {
 		out = append(out, ref.Schema{Kind: "fixed", Name: fmt.Sprintf("fx%d", n), Size: n})
@@ -392,7 +401,7 @@ func c05GoTypes() []spec.TypeSpec {
 	i64, i16, str := spec.T("int64"), spec.T("int16"), spec.T("string")
 	boolT, u64, pi64 := spec.T("bool"), spec.T("uint64"), spec.Ptr(spec.T("int64"))
 	out = append(out,
-		spec.Slice(i64), spec.Slice(i16), spec.Slice(str),
+		spec.Slice(i64), spec.Slice(i16), spec.Slice(str), spec.Slice(spec.T("float32")), spec.Slice(spec.T("float64")), spec.Slice(boolT), spec.Map(spec.T("float32")),
 		spec.TypeSpec{K: "array", N: 2, Elem: &i64},
 		// arrays of the byte size of a fixed schema in the list whose elements are not bytes
 		spec.TypeSpec{K: "array", N: 4, Elem: &boolT}, spec.TypeSpec{K: "array", N: 2, Elem: &pi64}, spec.TypeSpec{K: "array", N: 1, Elem: &str},
@@ -488,11 +497,22 @@ func c05Datums(x ref.Schema, rot int) []ref.Datum {
 		}
 		out = append(out, d)
 	case "union":
-		for bi, b := range x.Branches {
-			for _, d := range c05Datums(b, rot) {
-				out = append(out, ref.Union(bi, d))
+		// round robin over the branches, so that the cap below keeps every branch
+		var per [][]ref.Datum
+		for _, b := range x.Branches {
+			per = append(per, c05Datums(b, rot))
+		}
+		for i := 0; i < 10; i++ {
+			for bi := range per {
+				if i < len(per[bi]) {
+					out = append(out, ref.Union(bi, per[bi][i]))
+				}
 			}
 		}
+		if len(out) > 10 {
+			out = out[:10]
+		}
+		return out
 	}
 	// rotate by the seed so that different runs start from different values; cap at 10
 	if len(out) > 1 {
